@@ -112,7 +112,13 @@ deriving Repr, DecidableEq
 def canKind : Bytes := [99, 97, 110]
 def vcanKind : Bytes := [118, 99, 97, 110]
 
-/-- `Info.decode` over the attributes of IFLA_INFO_DATA (only the two attributes SetBitrate writes are modelled) -/
+def IFLA_CAN_BITTIMING_CONST : Nat := 2
+def IFLA_CAN_CLOCK : Nat := 3
+def IFLA_CAN_BERR_COUNTER : Nat := 8
+def IFLA_INFO_XSTATS : Nat := 3
+
+/-- `Info.decode` over the attributes of IFLA_INFO_DATA: every recognised attribute is size-checked, the first
+failure ends the decode with an error whatever follows; only bit timing and control mode are kept in the result -/
 def decodeInfo (li : LinkInfo) : List (Nat × Bytes) → Option LinkInfo
   | [] => some li
   | (t, p) :: r =>
@@ -124,6 +130,18 @@ def decodeInfo (li : LinkInfo) : List (Nat × Bytes) → Option LinkInfo
       match unmarshalItems ctrlModeLayout p with
       | none => none
       | some v => decodeInfo { li with cm := v } r
+    else if t = IFLA_CAN_BITTIMING_CONST then
+      match unmarshalItems bitTimingConstLayout p with
+      | none => none
+      | some _ => decodeInfo li r
+    else if t = IFLA_CAN_CLOCK then
+      match unmarshalItems clockLayout p with
+      | none => none
+      | some _ => decodeInfo li r
+    else if t = IFLA_CAN_BERR_COUNTER then
+      match unmarshalItems berrLayout p with
+      | none => none
+      | some _ => decodeInfo li r
     else decodeInfo li r
 
 /-- `linkInfoMsg.decode` -/
@@ -139,6 +157,10 @@ def decodeLinkAttrs (li : LinkInfo) : List (Nat × Bytes) → Option LinkInfo
       | some as => match decodeInfo li as with
         | none => none
         | some li' => decodeLinkAttrs li' r
+    else if t = IFLA_INFO_XSTATS then
+      match unmarshalItems statsLayout p with
+      | none => none
+      | some _ => decodeLinkAttrs li r
     else decodeLinkAttrs li r
 
 /-- decoding of the attribute bytes following the ifinfomsg header, as far as IFLA_LINKINFO is concerned -/
